@@ -23,7 +23,7 @@ FLOORS = {'quick': {'insert-accepted': 400, 'probe-lib': 4000, 'probe-defn': 400
                     'hook:knot_insertion': 300},
           'thorough': {'insert-accepted': 5000, 'probe-lib': 50000}}
 MANDATORY_TAGS = ['pdim1', 'pdim2', 'pdim3', 'twins', 'rational', 'on-knot', 'in-span', 'multi-dir', 'via:method', 'via:operations',
-                  'r>=2', 'unnormalized', 'dir:u', 'dir:v', 'dir:w']
+                  'r>=2', 'unnormalized', 'dir:u', 'dir:v', 'dir:w', 'same-value-again']
 TECHNIQUE = ("runtime monitoring: shadow-model oracle (exact reference of the original definition) evaluated after every step of "
              "a seeded insertion history, plus an all-call post-condition hook on helpers.knot_insertion/_kv")
 LEVEL_TEXT = ("Every insertion the workload performs is followed by an exact comparison of the live object and of its new "
@@ -129,6 +129,10 @@ def gen(rng, tier, shard, nshards):
         kw.setdefault('maxextra', {1: 6, 2: 4, 3: 2}[pd])
         sd = G.rand_shape(rng, pd, clamped_only=True, **kw)
         yield {'kind': 'history', 'sd': sd, 'seed': rng.randrange(1 << 30), 'steps': rng.randint(1, 8 if pd < 3 else 4)}
+        if i % 3 == 1:
+            # histories that insert the caller's own parameter value again (parameters 1e-3..1e-2 of the range from a domain end included)
+            sd2 = G.rand_shape(rng, pd, clamped_only=True, mindeg=2, **kw)
+            yield {'kind': 'history', 'sd': sd2, 'seed': rng.randrange(1 << 30), 'steps': rng.randint(3, 7), 'reinsert': True}
         if i % 4 == 0:
             yield {'kind': 'twins', 'seed': rng.randrange(1 << 30), 'pdim': rng.choice([1, 1, 2])}
 
@@ -219,6 +223,7 @@ def check(case, ctx):
     ctx.tag('pdim%d' % pdim, 'rational' if sd['rational'] else 'nonrational',
             'normalized' if sd['normalize_kv'] else 'unnormalized')
     accepted = 0
+    last_user = {}
 
     def views_consistent(step):
         # the control net as seen through every public view grew with the knot vector (rational shapes: ctrlpts, weights, ctrlptsw)
@@ -298,12 +303,25 @@ def check(case, ctx):
         else:
             # ---- single direction ----------------------------------------------------------------------------------------
             d = rng.randrange(pdim)
-            pick = so.pick_insertion(rng, o, d)
-            if pick is None:
-                continue
-            u, s, tag = pick
             p = pre['degrees'][d]
+            again = None
+            if case.get('reinsert') and d in last_user and rng.random() < 0.6:
+                # the SAME value the caller passed before (not the knot read back from the object) is inserted again; its current
+                # multiplicity is what the stored knot vector holds within 1e-9 of the range
+                U = pre['kvs'][d]
+                cur = sum(1 for k in U if abs(k - last_user[d]) <= 1e-9 * max(1.0, abs(U[-1] - U[0])))
+                if 0 < cur < p:
+                    again = (last_user[d], cur)
+            if again:
+                u, s = again
+                tag = 'same-value-again'
+            else:
+                pick = so.pick_insertion(rng, o, d, small=0.5 if case.get('reinsert') else 0.0)
+                if pick is None:
+                    continue
+                u, s, tag = pick
             r = rng.randint(1, p - s)
+            last_user[d] = u
             via = rng.choice(['operations', 'method'])
             ctx.tag(tag.split('-m')[0], 'via:' + via, 'dir:' + 'uvw'[d])
             if r >= 2:
